@@ -92,7 +92,7 @@ fn query_strategy() -> BoxedStrategy<Query> {
         4 => target_strategy().prop_map(Query::ClosestKeys),
         2 => target_strategy().prop_map(Query::ClosestValues),
         2 => (target_strategy(), pred_strategy()).prop_map(|(t, p)| Query::ClosestPred(t, p)),
-        3 => (dist_strategy(), 1u8..40).prop_map(|(ds, cap)| Query::ByDist { ds, cap }),
+        3 => (dist_strategy(), prop_oneof![10 => 1u8..40, 1 => 250u8..=251]).prop_map(|(ds, cap)| Query::ByDist { ds, cap }),
     ]
     .boxed()
 }
@@ -240,13 +240,22 @@ pub fn run_case(case: &Case) -> CaseReport {
             }
             Query::ByDist { ds, cap } => {
                 let dedup: HashSet<u64> = ds.iter().copied().collect();
-                let got: Vec<Id> = t.nodes_by_distances(ds, *cap as usize).into_iter().map(|e| e.node.key.preimage().raw()).collect();
+                // caps 250 and 251 stand for "no limit" values a caller may configure
+                let cap_n: usize = match *cap {
+                    250 => usize::MAX,
+                    251 => usize::MAX / 2,
+                    c => c as usize,
+                };
+                if *cap >= 250 {
+                    rep.class("bydist-huge-cap");
+                }
+                let got: Vec<Id> = t.nodes_by_distances(ds, cap_n).into_iter().map(|e| e.node.key.preimage().raw()).collect();
                 if dedup.len() != ds.len() {
                     rep.exclude("bydist-duplicate-distances(assertion-free)", 1);
                     continue;
                 }
                 let sc = scan(&t);
-                if let Some((sig, detail)) = check_bydist(&local, ds, *cap as usize, &got, &sc) {
+                if let Some((sig, detail)) = check_bydist(&local, ds, cap_n, &got, &sc) {
                     rep.fail(sig, detail);
                     break;
                 }
@@ -255,7 +264,7 @@ pub fn run_case(case: &Case) -> CaseReport {
                 }
                 if !got.is_empty() {
                     rep.class("bydist-nonempty");
-                    if got.len() == *cap as usize {
+                    if got.len() == cap_n {
                         rep.class("bydist-capped");
                     }
                 }
@@ -301,7 +310,7 @@ impl Property for C08 {
         run_case(case)
     }
     fn rule() -> String {
-        "a table reached by a generated op history (same ops as C07, focus always including one of buckets 0..3, pending nodes included), then up to 12 (quick) / 40 (thorough) lookups: closest_keys / closest_values / closest_values_predicate for targets in {local id, a stored key, L^d for every log2 class 0..256 with low-bit patterns, random ids} compared element by element with the full scan (iter_ref after the call) sorted by XOR distance computed by the harness; nodes_by_distances for distance lists (adjacent runs, scattered, 0 and >256 mixed in) and caps 1..39 compared with the scan. Non-trivial = >=2 occupied buckets incl. one of index <=3 and a target whose distance to the local id has one of bits 0..3 set.".into()
+        "a table reached by a generated op history (same ops as C07, focus always including one of buckets 0..3, pending nodes included), then up to 12 (quick) / 40 (thorough) lookups: closest_keys / closest_values / closest_values_predicate for targets in {local id, a stored key, L^d for every log2 class 0..256 with low-bit patterns, random ids} compared element by element with the full scan (iter_ref after the call) sorted by XOR distance computed by the harness; nodes_by_distances for distance lists (adjacent runs, scattered, 0 and >256 mixed in) and caps 1..39 (plus the 'no limit' caps usize::MAX and usize::MAX / 2) compared with the scan. Non-trivial = >=2 occupied buckets incl. one of index <=3 and a target whose distance to the local id has one of bits 0..3 set.".into()
     }
     fn assumptions() -> Vec<String> {
         vec![
